@@ -172,6 +172,10 @@ func (t *Term) smt(sb *strings.Builder) {
 	case "var":
 		sb.WriteString(t.name)
 	default:
+		if len(t.args) == 0 {
+			sb.WriteString(t.op)
+			return
+		}
 		sb.WriteByte('(')
 		sb.WriteString(t.op)
 		for _, a := range t.args {
